@@ -1078,3 +1078,122 @@ func symKey(v ssa.Value, pureGetters map[*types.Func]bool, depth int) string {
 	}
 	return v.Name()
 }
+
+// DependsOnThroughHelpers is DependsOn that also looks into the values returned by private helpers (unexported
+// functions of a repo package, statically called, two levels): `slot := tp.findFreeSlot()` depends on what
+// findFreeSlot computes.
+func (w *World) DependsOnThroughHelpers(v ssa.Value, pred func(ssa.Value) bool) bool {
+	seenFn := map[*ssa.Function]bool{}
+	var visit func(v ssa.Value, depth int) bool
+	visit = func(v ssa.Value, depth int) bool {
+		found := false
+		DependsOn(v, func(x ssa.Value) bool {
+			if found {
+				return true
+			}
+			if pred(x) {
+				found = true
+				return true
+			}
+			c, ok := x.(*ssa.Call)
+			if !ok || depth <= 0 {
+				return false
+			}
+			f := c.Call.StaticCallee()
+			if f == nil || len(f.Blocks) == 0 || token.IsExported(f.Name()) || f.Pkg == nil || !isRepoPath(f.Pkg.Pkg.Path()) || seenFn[f] {
+				return false
+			}
+			seenFn[f] = true
+			for _, b := range f.Blocks {
+				if ret, ok := b.Instrs[len(b.Instrs)-1].(*ssa.Return); ok {
+					for i := range ret.Results {
+						if visit(retOperand(ret, i), depth-1) {
+							found = true
+							return true
+						}
+					}
+				}
+			}
+			return false
+		})
+		return found
+	}
+	return visit(v, 2)
+}
+
+// FuncAndHelpers: fn plus the private helpers it calls statically (two levels), for rules that look for a
+// construct "somewhere in the implementation of fn".
+func (w *World) FuncAndHelpers(fn *ssa.Function) []*ssa.Function {
+	out := []*ssa.Function{fn}
+	seen := map[*ssa.Function]bool{fn: true}
+	var add func(f *ssa.Function, depth int)
+	add = func(f *ssa.Function, depth int) {
+		EachCall(f, func(c ssa.CallInstruction) {
+			g := c.Common().StaticCallee()
+			if g == nil || seen[g] || len(g.Blocks) == 0 || token.IsExported(g.Name()) || g.Pkg == nil || g.Pkg != fn.Pkg {
+				return
+			}
+			seen[g] = true
+			out = append(out, g)
+			if depth > 0 {
+				add(g, depth-1)
+			}
+		})
+	}
+	add(fn, 1)
+	return out
+}
+
+// ConstResultsUnder: the constants fn can return as result number resIdx when its parameter number paramIdx is
+// assumed equal to k (enum specialisation). A result that is the result of a private helper called with that same
+// parameter is evaluated in the helper under the same assumption (two levels). unknown=true when some reachable
+// return is neither a constant nor such a call.
+func (w *World) ConstResultsUnder(fn *ssa.Function, paramIdx int, k int64, resIdx int, depth int) (vals map[int64]bool, unknown bool) {
+	vals = map[int64]bool{}
+	if paramIdx >= len(fn.Params) {
+		return vals, true
+	}
+	p := fn.Params[paramIdx]
+	isP := func(v ssa.Value) bool { return resolveCell(v) == ssa.Value(p) }
+	reach := (&PathQ{Fn: fn, Cut: []EdgeCut{specCut(isP, k)}}).ReachableInstrs()
+	for in := range reach {
+		ret, ok := in.(*ssa.Return)
+		if !ok || len(ret.Results) <= resIdx {
+			continue
+		}
+		v := stripConv(retOperand(ret, resIdx))
+		if cv, ok := constOf(v); ok {
+			if iv, ok := constant.Int64Val(constant.ToInt(cv)); ok {
+				vals[iv] = true
+				continue
+			}
+		}
+		ri := 0
+		if e, ok := v.(*ssa.Extract); ok {
+			ri = e.Index
+			v = e.Tuple
+		}
+		c, isCall := v.(*ssa.Call)
+		if !isCall || depth <= 0 {
+			unknown = true
+			continue
+		}
+		f := c.Call.StaticCallee()
+		pi := -1
+		for i, a := range c.Call.Args {
+			if isP(stripConv(a)) {
+				pi = i
+			}
+		}
+		if f == nil || len(f.Blocks) == 0 || token.IsExported(f.Name()) || f.Pkg != fn.Pkg || pi < 0 {
+			unknown = true
+			continue
+		}
+		sub, u := w.ConstResultsUnder(f, pi, k, ri, depth-1)
+		for x := range sub {
+			vals[x] = true
+		}
+		unknown = unknown || u
+	}
+	return vals, unknown
+}
